@@ -180,6 +180,7 @@ def abort_points(shard, nshards, binary, tier):
             c.cmd("SET", "unsaved-change", "step-%06d" % (n + 1))   # same length: same number of steps
             c.cmd("LSET", "l", "0", "A")
             c.cmd("VERIF", "RDB", "ABORTSTEP", n)
+            srv.expect_exit()
             try:
                 c.send("SAVE" if n % 2 == 0 else "BGSAVE")
                 c.recv(timeout=10)
@@ -522,6 +523,10 @@ def run(tier):
     for role, shard in args:
         jobs.append((role, shard))
     results = util.run_workers(_wrap, [(a, nsh(a[0])) for a in jobs], dict(binary=binary, tier=tier, seed=seed), nproc=util.jobs())
+    if tier == "thorough":
+        # E5(c): save thread vs command thread on Arc-shared values, under ThreadSanitizer
+        from . import tsan_soup
+        results.merge(tsan_soup.run_soup("C10", seed, 120, "save"))
     return util.finish("C10", tier, seed, "fault_enumeration", results,
                        "A: every step of a save (open, each write, flush, rename) of two datasets as the failure point: "
                        "injected I/O error through SAVE and BGSAVE (dump.rdb must stay byte-identical, error reported, in-"
@@ -531,7 +536,8 @@ def run(tier):
                        "{TTL, no TTL}, SAVE during a parked BGSAVE, and BGSAVE in a loop under 4 writers of uniquely versioned "
                        "keys - every dump loaded in a second child, each key must be a (value, TTL-presence) pair it had at one "
                        "instant during the save; C: every prefix and 14 single-byte substitutions at every offset of 4 (quick) / "
-                       "21 (thorough) valid dumps loaded in-process under catch_unwind + counting allocator + watchdog; "
+                       "21 (thorough) valid dumps loaded in-process under catch_unwind + counting allocator + watchdog; thorough: "
+                       "120 s of BGSAVE/SAVE/BGREWRITEAOF under 6 writers against a ThreadSanitizer build; "
                        "cell = (part, type, phase / step class, action)", t0,
                        extra_cov={"exhaustive": True},
                        assumptions=["fault points cover process death and injected write errors, not power loss (the code never fsyncs)",
